@@ -54,6 +54,7 @@ type WCellEv struct {
 	Times        int       `json:"times"`      // how many constructions produced exactly this outcome
 	Aliased      int       `json:"aliased"`    // 1: the list changed when the caller later overwrote the slice it had passed in
 	PrevChg      int       `json:"prevChg"`    // >0: an earlier password changed when a later one was generated
+	ErrChg       int       `json:"errChg"`     // >0: an error value returned by an earlier call reads differently after a later call
 }
 
 func wlPublic(r spg.WLRecipe) []interface{} {
@@ -318,6 +319,9 @@ func wlCellEvents(id int, sc Scenario, seed int64, pre *spg.WLRecipe, preWL *spg
 			*res = ResOf(p, err, nil)
 			if lastP != nil && !reflect.DeepEqual(ResOf(lastP, nil, nil), lastRes) {
 				cell.PrevChg++
+			}
+			if errChanged(err) {
+				cell.ErrChg++
 			}
 			if err == nil && p != nil {
 				lastP, lastRes = p, *res
